@@ -1292,7 +1292,10 @@ func (f *FnVC) trExternPureIdx(env *Env, name string, argsE []SExpr, idx int) TV
 	if len(res) <= idx {
 		sfail("%s has no result %d", name, idx)
 	}
-	if env.inQuant == 0 {
+	if env.st != nil && env.st.kind == stParam {
+		// inside the definition of a recursive spec function the arguments are the function's formal parameters:
+		// nothing can be asserted about them there (the extern's facts are assumed where the function is applied)
+	} else if env.inQuant == 0 {
 		f.assumeExternEnsures(ct, args, res, env.st)
 	} else {
 		f.pureAxioms(ct, args, env.st)
